@@ -91,7 +91,7 @@ def is_cut(rq):
 def is_env_fault(rq):
     """requests whose outcome depends on a failure of the environment in mid-flight (an upstream dying inside its answer,
     a client half-closing): checked by the monitors only, left out of the Coq comparison, always last in a cluster"""
-    return is_cut(rq) or bool(rq.get("half_close")) or rq.get("burst", 0) > 1
+    return is_cut(rq) or bool(rq.get("half_close")) or rq.get("burst", 0) > 1 or bool(rq.get("pct"))
 
 
 def truth_views(nodes):
@@ -634,6 +634,22 @@ def marked_timeout_cluster(cid):
                          http_req(0, "POST", "/slow", "s.example.com", [("X-Piko-Forward", "true")])]}
 
 
+def percent_cluster(cid):
+    """endpoint ids with a literal '%' on the TCP route: the client escapes the id once ("x%41" travels as x%2541); the node decodes
+    once - the tunnel goes to the upstream of "x%41", not to the one of "xA" (monitor only: the model's path grammar has no escapes)"""
+    nodes = [{"id": "n0", "upstreams": [], "view": []}, {"id": "n1", "upstreams": [up("u1", "x%41"), up("u2", "xA"), up("u3", "100%")], "view": []}]
+    truth_views(nodes)
+    reqs = []
+    for entry in (0, 1):
+        for seg in ("x%2541", "xA", "100%25"):
+            r = tcp_req(entry, seg=seg)
+            if "%" in seg:
+                r["pct"] = True
+            reqs.append(r)
+    reqs.sort(key=lambda r: 1 if is_env_fault(r) else 0)
+    return {"id": cid, "timeout_ms": NORMAL_TIMEOUT_MS, "kind": "consistent", "nodes": nodes, "requests": reqs}
+
+
 def gen_cluster(rng, cid, profile):
     if rng.random() < profile.get("p_tls", 0.0):
         return gen_tls_cluster(rng, cid)
@@ -756,6 +772,10 @@ def py_endpoint(headers, host):
 
 def addressed(rq):
     if rq["kind"] == "tcp":
+        if rq.get("pct"):
+            # the segment as it stands in the request line is percent-encoded ONCE (what a client does for an id with a '%')
+            import urllib.parse
+            return urllib.parse.unquote(U(rq["seg"]))
         return U(rq["seg"])
     return py_endpoint(rq["headers"], U(rq["host"]))
 
@@ -1336,7 +1356,7 @@ def run_property(ctx, pid, nclusters_quick, nhosts):
     nclusters = nclusters_quick if tier == "quick" else nclusters_quick * 15
     profile = PROFILES[pid]
     clusters = corpus() + [gen_dynamic_cluster(random.Random(7 + k), "corpus-dyn-" + sc, sc) for k, sc in enumerate(["reconnect", "twins", "goaway", "flaky"])] \
-        + [gen_tls_cluster(random.Random(77), "corpus-tls"), reset_cluster("corpus-reset")] \
+        + [gen_tls_cluster(random.Random(77), "corpus-tls"), reset_cluster("corpus-reset"), percent_cluster("corpus-percent")] \
         + ([marked_timeout_cluster("corpus-timeout-marked"), agent_burst_cluster("corpus-agent-burst"), empty_404_cluster("corpus-empty-404", False), empty_404_cluster("corpus-empty-404-b", False),
             empty_404_cluster("corpus-empty-404-agent", True)] if pid == "C08" else []) \
         + [gen_cluster(rng, "g%d" % i, profile) for i in range(nclusters)]
